@@ -47,7 +47,8 @@ CONSTANTS MaxJobs, MaxSteps,
           ReqCallOuts,   \* TRUE: jobs are only added to headers whose workflow_call declares the output
 
           RunsOn, Shells, WShells,
-          Sites, Ctxs    \* site kinds / contexts for which vectors are generated
+          Sites, Ctxs,   \* site kinds / contexts for which vectors are generated
+          ShortSites     \* site kinds for which only references of path length 1 are generated
 
 Range(f) == {f[x] : x \in DOMAIN f}
 Last(s) == s[Len(s)]
@@ -378,7 +379,7 @@ BuildJobs ==
 VecSites(s) == {x \in AllSites(s) : x.k \in Sites}
 Pick ==
   /\ sh.jobs # <<>>
-  /\ \E site \in VecSites(sh) : \E r \in {q \in RefsAt(site.k) : q.ctx \in Ctxs} :
+  /\ \E site \in VecSites(sh) : \E r \in {q \in RefsAt(site.k) : q.ctx \in Ctxs /\ (site.k \in ShortSites => Len(q.p) = 1)} :
        tc' = ToJson([sh |-> sh, site |-> site, ref |-> r, def |-> Defined(sh, site, r)])
   /\ phase' = "vec"
   /\ UNCHANGED <<sh, visited, cur, k, rs, obs, seen>>
